@@ -67,8 +67,8 @@ impl<'a> Lexer<'a> {
 
         if is_float {
             match value.parse::<f64>() {
-                Ok(f) => self.add_token(TokenKind::Float(f), start),
-                Err(_) => {
+                Ok(f) if f.is_finite() => self.add_token(TokenKind::Float(f), start),
+                Ok(_) | Err(_) => {
                     self.errors.push(CompileError::new(
                         format!("Invalid float literal: {}", value),
                         Span::new(start, self.current_pos),
